@@ -199,4 +199,19 @@ PROPS = {
                  thorough=ev("^ZZ_C14_", "as quick with the C01 reduced generator (rules in both directions, 5 peer and 5 port shapes) for every policy", "more than two policies", models=200, wall=3000)),
         ],
     ),
+    "C08": dict(
+        assumptions=["partial: order independence of the library results rendered as txt / md / dot text; the map-iteration order of the Go runtime is a scheduler choice of the engine "
+                     "(each `range` over a map may start at any entry or run backwards), explored exhaustively for at most K deviating sites per run; "
+                     "symbolic ports keep the texts symbolic, so equality of the two texts is a solver query",
+                     "not claimed: csv and json renderings (encoding/csv over bufio byte buffers, encoding/json reflection: not interpretable with symbolic text), "
+                     "the diff formats, the split of documents over files (the scanner is I/O; C13 DirPath covers placement for the connections), process-level byte identity (C18 N/A)"],
+        groups=[
+            dict(pkg=CONNLIST, harness="harness/connlist", shared="harness/shared",
+                 quick=ev("^ZZ_C08_", "3 workloads in 2 namespaces, two NetworkPolicies with 3+2 rule peers and 2+2 port entries (symbolic ports in one relative order), plus one of {nothing, two ANPs, services+ingress objects in 4 namespaces, two more policies on the same workload}; "
+                          "second run with the documents permuted (quick: reversed documents; policies first with reversed rule peers/ports/rules) and the map schedule free at <=1 site per run (every rotation and the reversal); "
+                          "list and exposure reports in txt, md, dot compared with the reference run",
+                          "K>=2 simultaneous deviating map sites (thorough: 2 for the list report); csv/json; diff formats", models=30, mapsched=1, native_repeat=200),
+                 thorough=ev("^ZZ_C08_", "as quick with 4 document permutations and <=2 simultaneously deviating map sites", "K>=3 deviating sites", models=100, mapsched=2, native_repeat=200, wall=3000)),
+        ],
+    ),
 }
